@@ -22,8 +22,8 @@ RULE = (
     "least one phase was mobile (strictly between residual and 1 - other residuals), or a "
     "rejection path was driven. Distinct = distinct descriptor hash."
 )
-MIN_NONTRIVIAL = {"quick": 150, "thorough": 3000}
-SHARDS = {"quick": 1, "thorough": 8}
+MIN_NONTRIVIAL = {"quick": 150, "thorough": 25000}
+SHARDS = {"quick": 1, "thorough": 16}
 GENERATOR = {
     "exponents": "[1, 6] incl. fractional and the end points",
     "residuals": "each in [0, 0.6], sum < 0.95, incl. zeros",
@@ -86,7 +86,7 @@ def _simplex(rng, m):
 
 def generate(ck):
     rng = ck.rng
-    n = 260 if ck.tier == "quick" else 6000
+    n = 260 if ck.tier == "quick" else 40000
     descs = []
     # deterministic corners first
     corner_params = [
